@@ -319,6 +319,8 @@ def execute(case: dict[str, Any], offset: int, check: bool, ctx: Ctx | None, pru
             step, v = c["reports"][j]
             if v == "WINF":
                 v = 0.0 if case["champion"] == i else sign * math.inf
+            elif v == "BINF":  # the infinity of the better side (only generated by C13's mirror check)
+                v = -sign * math.inf
             if case["champion"] == i:
                 # strictly better than anything others may report (their values are in [-10,10])
                 v = sign * (-100.0 - v)
